@@ -39,9 +39,9 @@ func (e *Engine) VerifyFunc(fn *ssa.Function, ct *spec.FuncContract) (res *FuncR
 	}()
 	sc := NewScript()
 	short := shortKey(FuncKey(fn))
-	if ct != nil && ct.Swept && fn.Pkg != nil {
+	if ct != nil && ct.Swept && fn.Package() != nil {
 		// swept functions come from many packages: keep obligation names unique by prefixing the package name
-		short = fn.Pkg.Pkg.Name() + ":" + short
+		short = fn.Package().Pkg.Name() + ":" + short
 	}
 	f := &FnVC{E: e, Fn: fn, Ct: ct, SC: sc, TE: NewTypeEnv(sc), Short: short,
 		vals: map[vkey]Val{}, epochHeap: map[int]map[string]Term{}, heapSort: map[string]string{}, ord: map[string]int{},
